@@ -29,10 +29,16 @@ type c16Case struct {
 	// PerOption: the patterns are handed over one per WithIncludePattern/WithExcludePattern option, and the owner
 	// through WithChown, instead of through one CopyInfo
 	PerOption bool `json:"peroption,omitempty"`
+	// Into: the tree is copied into this (not yet existing) directory below the destination root instead of into the
+	// root itself; the patterns still speak of source paths
+	Into string `json:"into,omitempty"`
 }
 
 func (c c16Case) String() string {
 	s := fmt.Sprintf("tree=%v include=%q exclude=%q dst=%s always-replace=%v", c.Tree.Paths(), c.Include, c.Exclude, c.Dst, c.Repl)
+	if c.Into != "" {
+		s += fmt.Sprintf(" copied-into=%q", c.Into)
+	}
 	for _, n := range c.Tree {
 		if n.HL != 0 {
 			s += fmt.Sprintf(" %s:hl%d", n.Path, n.HL)
@@ -162,11 +168,22 @@ func judgeC16Raw(c c16Case) (string, string) {
 			opts = append(opts, fscopy.WithChown(1000, 1000))
 		}
 	}
-	if err := boundedCopy(func() error { return fscopy.Copy(context.Background(), src, "/", dst, "/", opts...) }); err != nil {
+	dstArg := "/"
+	if c.Into != "" {
+		dstArg = c.Into
+	}
+	if err := boundedCopy(func() error { return fscopy.Copy(context.Background(), src, "/", dst, dstArg, opts...) }); err != nil {
 		if err == errCopyHangs {
 			return "copy-hangs", err.Error()
 		}
 		return "copy-failed", err.Error()
+	}
+	if c.Into != "" {
+		// everything below is judged relative to the directory the tree went into (it exists even if nothing is selected)
+		dst = filepath.Join(dst, c.Into)
+		if _, err := os.Lstat(dst); err != nil {
+			os.MkdirAll(dst, 0755)
+		}
 	}
 	after, err := fsmodel.Snapshot(dst)
 	if err != nil {
@@ -349,6 +366,20 @@ func runC16(r *evid.Run) {
 					}
 				}
 			}
+		}
+	}
+	// the same lists with the tree copied into a directory below the destination root (one and two levels down)
+	for ti, t := range trees {
+		if ti >= 3 {
+			break
+		}
+		for _, in := range patternLists(2, c10Patterns) {
+			for _, into := range []string{"app", "srv/app/"} {
+				cases = append(cases, c16Case{Tree: t, Include: in, Dst: "empty", Into: into})
+			}
+		}
+		for _, ex := range patternLists(1, c10Patterns) {
+			cases = append(cases, c16Case{Tree: t, Exclude: ex, Dst: "empty", Into: "app"})
 		}
 	}
 	// requested owner and timestamp together with patterns: on-demand ancestors are copied entries too
